@@ -2,6 +2,7 @@
 import json, os
 import seqprop
 from props import _seqplans
+import schedupper
 
 THEOREMS = {"C15.v": json.load(open(os.path.join(os.path.dirname(__file__), "_theorems.json")))["C15"],
             # concurrent half: the whole allocator under every interleaving (machine M2)
@@ -13,5 +14,6 @@ def run(ctx):
     return seqprop.run(
         ctx, THEOREMS, corr=('result', 'trees', 'locals'), oracle=('C15',),
         quick_plan=quick, thorough_plan=thorough, corpus_tags=('D4', 'D5'),
+        extra=schedupper.run_c15_conc,   # tree changes racing with allocations (machine M2 schedules)
         text="Coq theorems with the ghost off_t (frames hidden by offline): change_tree(Offline) by id on an unreserved matching tree succeeds, zeroes the counter and hides exactly its frames; while a tree's free frames are entirely hidden no get of any kind returns a frame of it (every lower get on a tree is preceded by a successful decrement of its counter or of a slot holding it), along every history without change_tree and without frees into that tree; the fast count excludes hidden frames; Online restores counter = lower free frames, off = 0 and the requested class; change_tree never touches reserved or non-matching trees and an Err leaves everything unchanged. Tied to the code by the tree-change suite compared with the model and with the harness's own tracking of offline trees.",
         rule=_seqplans.RULE)
